@@ -1,6 +1,6 @@
 (* C10 carriers (5) (1) (2): executable runners. *)
 From Coq Require Import List ZArith Arith Bool String Ascii.
-From Gst Require Import lib.Sx C10.ModelCow C10.ModelRng C10.ModelOptim C10.gen.VectorTOps C10.gen.OptimPaths.
+From Gst Require Import lib.Sx C10.Model C10.ModelCow C10.ModelRng C10.ModelOptim C10.ModelMemo C10.gen.VectorTOps C10.gen.OptimPaths.
 Import ListNotations.
 
 Definition ofString (s : string) : sx := L (map (fun a => I (Z.of_nat (nat_of_ascii a))) (list_ascii_of_string s)).
@@ -60,5 +60,14 @@ Definition runMisc (c : sx) : sx :=
       | None => sx_error 1
       end
   | L [I 70%Z] => ofList (fun nw => L [ofString (fst nw); ofList ofEv (snd nw)]) (failed_paths optim_paths)
+  | L [I 81%Z; tbl; ts] =>
+      (* tbl = ((target (ranks...)) ...) : what a fresh neighbourhood object selects for each target *)
+      match asListOf (fun x => match x with L [t; r] => match asNat t, asListOf asNat r with Some t', Some r' => Some (t', r') | _, _ => None end | _ => None end) tbl,
+            asListOf asNat ts with
+      | Some tb, Some ts' =>
+          let nb := fun t => match find (fun x => Nat.eqb (fst x) t) tb with Some x => snd x | None => [] end in
+          ofList (fun ru => L [ofList ofNat (fst ru); ofB (snd ru)]) (selects nb memo_init ts')
+      | _, _ => sx_error 1
+      end
   | _ => sx_error 0
   end.
